@@ -233,6 +233,9 @@ func (g *gen) onePure() {
 		// payload = TLV value (skip 4 byte TLV header)
 		if len(t) >= 4 {
 			g.parse(k.k, t[4:])
+			if n == k.n {
+				g.roundTripSMP(k.k, bs, nil, t)
+			}
 			g.parse(k.k, g.mutate(t[4:]))
 		}
 	case 12:
@@ -241,6 +244,16 @@ func (g *gen) onePure() {
 			bs = append(bs, g.mpiBytes())
 		}
 		q := g.blob()
+		maximal := g.r.Intn(25) == 0
+		if maximal {
+			// the longest question the 16 bit length field of a TLV has room for (or one byte less):
+			// value = question, NUL, count, six length-prefixed integers = 65535 bytes
+			room := 65535 - 1 - 4
+			for _, b := range bs {
+				room -= 4 + len(b)
+			}
+			q = g.bytesN(room - g.r.Intn(2))
+		}
 		for i := range q {
 			if q[i] == 0 {
 				q[i] = '?'
@@ -249,7 +262,10 @@ func (g *gen) onePure() {
 		t := g.build("smp1q", nil, append(bs, q))
 		if len(t) >= 4 {
 			g.parse("smp1q", t[4:])
-			g.parse("smp1q", g.mutate(t[4:]))
+			g.roundTripSMP("smp1q", bs, q, t)
+			if !maximal {
+				g.parse("smp1q", g.mutate(t[4:]))
+			}
 		}
 	case 13:
 		var bs [][]byte
@@ -691,6 +707,62 @@ func (g *gen) roundTripPlain(text []byte, nums []uint64, vs [][]byte, ser []byte
 	if got := otr3.VerifParse("plain", ser); got != want {
 		olog.viol("C17", "plaintext-round-trip-differs", fmt.Sprintf("built %s, serialised to %x, parsed back as %s", want, ser, got))
 	}
+}
+
+// C17 on the implementation itself, SMP payloads: the TLV that the library serialises for an SMP
+// message 1 (without and with a question - any NUL-free question: empty, one byte, non-ASCII bytes,
+// as long as the TLV length field allows), 2, 3 or 4 built from minimal integers parses back, and to
+// exactly the integers (and question) it was built from. mpis are in the order of the TLV; question
+// is nil for the kinds without one; ser is the whole TLV (type, length, value).
+func (g *gen) roundTripSMP(kind string, mpis [][]byte, question []byte, ser []byte) {
+	if olog == nil || len(ser) < 4 {
+		return
+	}
+	order := map[string][]int{
+		"smp1":  {0, 3, 1, 4, 2, 5}, // printed as g2a g3a c2 c3 d2 d3
+		"smp1q": {0, 3, 1, 4, 2, 5},
+		"smp2":  {0, 3, 1, 4, 2, 5, 6, 7, 8, 9, 10},
+		"smp3":  {0, 1, 2, 3, 4, 7, 5, 6}, // printed as pa qa cp d5 d6 d7 ra cr
+		"smp4":  {1, 2, 0},                // printed as cr d7 rb
+	}[kind]
+	if len(order) != len(mpis) {
+		return
+	}
+	want := "some " + strings.TrimSuffix(kind, "q")
+	for _, i := range order {
+		want += " " + hx(mpis[i])
+	}
+	switch kind {
+	case "smp1":
+		want += " false -"
+	case "smp1q":
+		want += " true " + hx(question)
+	}
+	olog.ok("C17")
+	got := otr3.VerifParse(kind, ser[4:])
+	if got == want {
+		return
+	}
+	var fields []string
+	for _, b := range mpis {
+		fields = append(fields, hx(b))
+	}
+	what := fmt.Sprintf("SMP message %s from the integers [%s] (TLV order)", strings.TrimPrefix(kind, "smp"), strings.Join(fields, " "))
+	if kind == "smp1q" {
+		qs := fmt.Sprintf("%q (hex %s)", question, hx(question))
+		if len(question) > 40 {
+			qs = fmt.Sprintf("%q… (hex %s…)", question[:40], hx(question[:40]))
+		}
+		what += fmt.Sprintf(" and the question of %d bytes %s", len(question), qs)
+	}
+	sers := fmt.Sprintf("%x", ser)
+	if len(ser) > 400 {
+		sers = fmt.Sprintf("%x… (%d bytes)", ser[:400], len(ser))
+	}
+	if len(got) > 400 {
+		got = got[:400] + "…"
+	}
+	olog.viol("C17", "smp-round-trip-differs", fmt.Sprintf("%s: serialised to the TLV %s, whose value parses back as: %s", what, sers, got))
 }
 
 // A sequence of fragment arrivals through the index/total switch of receiveFragment, each relative
